@@ -2,6 +2,7 @@ import SJ.Proofs.Ieee
 /-!
 # binary64 / binary32: `roundNE64`, `roundNE32` satisfy `IsNearestEven64/32`
 -/
+set_option linter.unusedSimpArgs false
 namespace SJ.Proofs.Ieee
 open SJ.Spec.Ieee
 
